@@ -48,6 +48,9 @@ type Exchange struct {
 	cancel            context.CancelFunc
 	body              *ctlBody
 	flushes           int
+	// holdHeader: a slow connection: the first WriteHeader call blocks until the channel is closed
+	holdHeader chan struct{}
+	HeldHeader bool // a WriteHeader call is (or was) held
 }
 
 func (e *Exchange) Header_() http.Header { return e.hdr }
@@ -75,6 +78,12 @@ func (r recorder) snapshotLocked() {
 func (r recorder) WriteHeader(code int) {
 	e := r.e
 	e.mu.Lock()
+	if ch := e.holdHeader; ch != nil && !e.HeldHeader {
+		e.HeldHeader = true
+		e.mu.Unlock()
+		<-ch
+		e.mu.Lock()
+	}
 	defer e.mu.Unlock()
 	e.HeaderCalls++
 	if e.Returned {
@@ -244,6 +253,7 @@ type ReqSpec struct {
 	FailBodyAt    int // -1 none
 	BodyChunk     int
 	RemoteAddr    string
+	HoldHeader    chan struct{} // slow connection: the first status line blocks until this channel is closed
 }
 
 func NewReq(method, path, query string) ReqSpec {
@@ -266,7 +276,7 @@ func Do(h http.Handler, spec ReqSpec) *Exchange {
 	if req.RemoteAddr == "" {
 		req.RemoteAddr = "10.9.9.9:5555"
 	}
-	e := &Exchange{Method: spec.Method, URL: u.String(), hdr: http.Header{}, cancel: cancel, StartedAt: time.Now()}
+	e := &Exchange{Method: spec.Method, URL: u.String(), hdr: http.Header{}, cancel: cancel, StartedAt: time.Now(), holdHeader: spec.HoldHeader}
 	e.cond = sync.NewCond(&e.mu)
 	if spec.HasBody {
 		data := spec.Body
